@@ -101,6 +101,9 @@ class WatermarkPoolSink(PoolSink):
       if item.state <= ChannelState.Open:
         return item
       else:
+        # The cached sink died while it was idle, it no longer counts.
+        self._current_size -= 1
+        self._varz.size(self._current_size)
         self._DiscardSink(item)
     return None
 
